@@ -89,6 +89,9 @@ CLAIMED = {
             "DESIGN.md section 4 C15"),
 }
 
+SESSION_NOTE = " Second generation (after independently seeded changes, DESIGN section 10.1): interference sessions re-check RETAINED results after later calls, after 40-70 further calls, after the results were modified through their public API, with inputs repeated and with input memory / packet objects recycled for a varied input of the same length; decoder inputs carry a canary in their spare capacity."
+SESSION_IDS = {"C01", "C02", "C04", "C06", "C07", "C08", "C09", "C11", "C12", "C13", "C14", "C20"}
+
 NOT_YET = "check not built yet in this round (designed in DESIGN.md section 4; to be claimed when its check exists)"
 
 
@@ -107,9 +110,9 @@ def main():
                 "evidence_file": "/verif/evidence/%s.json" % pid,
                 "replay_cmd_template": "./check %s --replay {path}" % pid,
                 "engine": "gots-pbt-harness",
-                "level_claimed": {"category": "exploration", "text": text, "design_ref": ref},
+                "level_claimed": {"category": "exploration", "text": text + (SESSION_NOTE if pid in SESSION_IDS else ""), "design_ref": ref},
                 "level_note": note,
-                "technique": tech,
+                "technique": tech + ("; interference sessions (retained results, repeated / recycled inputs) over the same oracle" if pid in SESSION_IDS else ""),
             })
         else:
             na.append({"property_id": pid, "reason": NOT_YET})
